@@ -523,7 +523,7 @@ fn fault_kinds(tier: &str) -> (Vec<String>, Vec<String>) {
         sec.push(s.to_string());
     }
     if tier == "thorough" {
-        for n in [2, 3, 4, 9, 13, 14, 15, 16, 64, 1000] {
+        for n in [2, 4, 9, 16, 1000] {
             sec.push(format!("error:{n}"));
         }
         sec.push("errorexit:3".into());
@@ -633,7 +633,7 @@ fn parent(args: &Args) {
         solver: solver.clone(),
         real,
         stall_ms: args.get_u64("stall-ms", 3000),
-        spin_ms: args.get_u64("spin-ms", 500),
+        spin_ms: args.get_u64("spin-ms", 400),
         max_ms: args.get_u64("max-ms", 120000),
     };
     let jobs_n = args.get_u64("jobs", 8) as usize;
@@ -645,7 +645,10 @@ fn parent(args: &Args) {
         None => fault_kinds(&tier),
     };
     let live_every = args.get_u64("live-every", 20);
-    let secondary_everywhere = tier == "thorough" || args.get("secondary") == Some("all");
+    // where the secondary kinds go: "all" = every point, "rotate" = one point per point kind; per engine
+    let sec_default = if tier == "thorough" { "all" } else { "rotate" };
+    let sec_bmc = args.get("secondary-bmc").or(args.get("secondary")).unwrap_or(sec_default).to_string();
+    let sec_pdr = args.get("secondary-pdr").or(args.get("secondary")).unwrap_or("rotate").to_string();
 
     let mut out = std::io::BufWriter::new(std::fs::File::create(&args.out).expect("out file"));
     let mut distinct = std::collections::HashSet::new();
@@ -754,10 +757,12 @@ fn parent(args: &Args) {
                 stats.add("pdr-points-sampled-out", (pts.len() - chosen.len()) as u64);
             }
             let mut jobs = vec![];
+            let secondary_everywhere = (if engine == "pdr" { &sec_pdr } else { &sec_bmc }) == "all";
             if class_of(&nominal.fin) != "hang" {
                 let nominal_log = format!("{}/s{si}.{engine}.nominal.log", st.tmp);
                 let mut push = |p: usize, f: &String| {
-                    let tag = format!("s{si}.{engine}.p{p}.{}", sanitize(f));
+                    // unique per (point, fault): two fault names may sanitize to the same text
+                    let tag = format!("s{si}.{engine}.p{p}.{}.{:x}", sanitize(f), f.bytes().fold(0u32, |h, b| h.wrapping_mul(31).wrapping_add(b as u32)) & 0xffff);
                     // every `live_every`-th job talks to a live solver all the way, the others reuse the recorded replies
                     let live = live_every > 0 && (jobs.len() as u64) % live_every == 0;
                     jobs.push((Job { at: Some(pts[p].0), fault: f.clone(), tag, replay: if live { None } else { Some(nominal_log.clone()) }, keep_log: false, ..base_job.clone() }, pts[p].0, pts[p].1.clone(), pts[p].2.clone()));
